@@ -20,7 +20,8 @@ EXPLANATION = ("Decided from MIR, for the code that orders and searches entries 
                "the reader compares the stored value (receiver) with the probe (argument) in PropertyCompare::compare_entry and "
                "RawValue::partial_cmp, returns the first non-equal answer unchanged, and reader Array::cmp answers Greater when the probe "
                "is exhausted first, Less when the stored bytes are, Equal when both are; (R7) value ids are assigned in the byte order of "
-               "the values (= C15-R4). NOT decided: that the writer's (prefix, value id, length) order and the reader's byte-wise order "
+               "the values, by a sort whose key is the whole value (= C15-R4); (R8) every reordering of the entries is followed by a "
+               "re-indexing, and in particular between each sort and the check that follows it (= C15-R1). NOT decided: that the writer's (prefix, value id, length) order and the reader's byte-wise order "
                "agree for every key set, nor the result of a search on any store.")
 ASSUMPTIONS = ["rustc MIR construction and trait resolution", "slice / integer Ord::cmp as documented", "rayon par_sort_* sort by the comparator they are given"]
 
